@@ -324,6 +324,33 @@ def prefixed(prefix, units):
     return [Unit(f"{prefix} {u.name} (shared)", u.build, u.budget) for u in units]
 
 
+def u_multi_refusals(root):
+    """MultiFit.disable_error: the refusal of a member (unknown source name) is the refusal of the multi-fit - it is not swallowed - and members asked before the refusing one
+    are the only ones touched (instance unit over recording member fits)"""
+    from . import c03
+    Part, Fn = c03.Part, c03.Fn
+    eng = engine(root, ["kafe2/fit/multi/fit.py", "kafe2/fit/_base/fit.py"], {"MultiFit": {"_fits": PYOBJ}}, [])
+    for refusing in (None, 0, 1):
+        def member(k, refusing=refusing):
+            def dis(e, st, a, kw):
+                if k == refusing:
+                    raise PyRaise("ValueError")
+                return VNone()
+            return Part("member%d" % k, {"disable_error": Fn(dis)})
+        c = Contract("MultiFit", "disable_error")
+
+        def post(vw, refusing=refusing):
+            asked = [x[1] for x in vw.post.ghost.get("fx", ()) if x[0] == "call" and x[2] == "disable_error"]
+            if refusing is None:
+                return [("every member is asked, in order, and the call returns", z3.BoolVal(vw.flow != "raise" and asked == ["member0", "member1"]))]
+            return [("a member's ValueError (no source of that name) leaves MultiFit.disable_error as a ValueError: an unknown name is not accepted silently", z3.BoolVal(vw.flow == "raise" and vw.exc == "ValueError")),
+                    ("no member after the refusing one is asked", z3.BoolVal(asked == ["member%d" % q for q in range(refusing + 1)]))]
+        c.ensures.append(post)
+        eng.verify("MultiFit", "disable_error", None, lambda e, st, me_, member=member: (e.write_field(st, me_, "_fits", VTuple([member(0), member(1)])), {"err_id": VStr("some_source")})[1], contract=c,
+                   tag=f"[{'no member refuses' if refusing is None else 'member %d refuses' % refusing}]")
+    return eng
+
+
 def units(root):
     shared_c12 = [u for u in c12.units(root) if any(k in u.name for k in ("set_bins", "rebin", "fill("))]
     shared_c16 = [u for u in c16.units(root) if u.name in ("ConfidenceLevel setters", "ConfidenceLevel.__init__")]
@@ -335,4 +362,4 @@ def units(root):
     return [Unit("SimpleGaussianError.__init__ guards", u_error_ctor_guards), Unit("MatrixGaussianError correlation-matrix guards", u_matrix_error_guards),
             Unit("DataContainerBase._add_error_object", u_add_error_object), Unit("CostFunction_NegLogLikelihood.is_data_compatible", u_poisson_compat),
             Unit("XYContainer._find_axis_raise", u_find_axis), Unit("NexusFitter.set_fit_parameter_values", u_set_fit_parameter_values), Unit("FitBase constraint / limit names", u_fit_names),
-            Unit("Nexus.add_dependency rollback", u_add_dependency, bounded="dependency lists of length <= 3 over 3 nodes, with / without dependencies that existed before; node objects and the cycle checker are recording stand-ins")] + prefixed("HistContainer", shared_c12) + prefixed("", shared_c16) + prefixed("", shared_c02) + prefixed("", shared_c14) + prefixed("fit:", shared_c03)
+            Unit("MultiFit.disable_error does not swallow a member's refusal", u_multi_refusals, bounded="two member fits (recording stand-ins), the refusing member at either position"), Unit("Nexus.add_dependency rollback", u_add_dependency, bounded="dependency lists of length <= 3 over 3 nodes, with / without dependencies that existed before; node objects and the cycle checker are recording stand-ins")] + prefixed("HistContainer", shared_c12) + prefixed("", shared_c16) + prefixed("", shared_c02) + prefixed("", shared_c14) + prefixed("fit:", shared_c03)
